@@ -28,6 +28,12 @@ OUT = os.environ.get("VERIF_OUT", VERIF)
 SCALE = float(os.environ.get("VERIF_TIMEOUT_SCALE", "2.5"))
 
 
+def _ob_matches(name, f):
+    """a listed finding names its obligations by one glob or a list of globs"""
+    pats = f.get("obligations", "*")
+    return any(fnmatch.fnmatch(name, p) for p in ([pats] if isinstance(pats, str) else pats))
+
+
 def load_known(prop: str):
     if not os.path.exists(KNOWN):
         return []
@@ -68,7 +74,7 @@ def run_obligation(prop: str, module: str, ob, known: list, workdir: str, seed: 
         return run_smt_obligation(prop, module, ob, known, workdir, res, t0)
     open_known = {}
     for f in known:
-        if f.get("status") == "open" and fnmatch.fnmatch(ob.name, f.get("obligations", "*")):
+        if f.get("status") == "open" and _ob_matches(ob.name, f):
             for sig in f.get("signatures", [f["signature"]] if "signature" in f else []):
                 open_known[sig] = f
 
@@ -197,7 +203,7 @@ def run_smt_obligation(prop, module, ob, known, workdir, res, t0):
     base = {"module": module, "harness": ob.harness, "cfg": ob.cfg}
     open_known = {}
     for f in known:
-        if f.get("status") == "open" and fnmatch.fnmatch(ob.name, f.get("obligations", "*")):
+        if f.get("status") == "open" and _ob_matches(ob.name, f):
             for sig in f.get("signatures", [f["signature"]] if "signature" in f else []):
                 open_known[sig] = f
     r = _run_spec({**base, "mode": "smt"}, workdir, ob.name + ".smt", ob.timeout * 1.5 + 60)
@@ -286,7 +292,7 @@ def run_property(prop: str, tier: str, seed: int = 0, jobs: int | None = None, o
             print(line)
     for f in known:
         if f.get("status") == "open" and f.get("id") not in hit_ids and not only:
-            if any(fnmatch.fnmatch(n, f.get("obligations", "*")) for n in names):
+            if any(_ob_matches(n, f) for n in names):
                 print(f"STALE-FINDING: property={prop} {f.get('id')} listed as open but not reproduced by this run ({tier} tier)")
     for r in inconclusive:
         print(f"INCONCLUSIVE obligation={r['name']} status={r['status']} {r.get('message', '')[:200]}")
